@@ -211,6 +211,9 @@ Lines(p) == Cardinality({j \in DOMAIN ev.stat : ev.stat[j][1] = p})
 StatusFor(p) == ev.stat[CHOOSE j \in DOMAIN ev.stat : ev.stat[j][1] = p][2]
 Contradicted(r) == \E j \in DOMAIN ev.errs : ev.errs[j][1] = "Contradiction" /\ ev.errs[j][3] = RuleId(r)
 OkRule(k) == k \in ScopeI /\ Reached(rules[k]) /\ ~Fails(rules[k]) /\ ~Contradicted(rules[k])
+\* "each failure is reported once": the same judgement as C04_ErrorsExact, on the reported list
+C20_FailuresOnce ==
+  (Graded /\ EnvFreeScope) => \A e \in SeqSet(ev.errs) \cup ExpErrSet : CountIn(ev.errs, e) = ExpCount(e)
 C20_StatusTruth ==
   (Graded /\ EnvFreeScope) =>
      /\ \A k \in DOMAIN rules : \A i \in DOMAIN rules[k].tg :
